@@ -368,8 +368,12 @@ def run_variant(pid, cfg, variant, tier, seed, workdir, scale, jobs, only=None, 
                 live.remove(pr)
                 continue
             if rc == 'stall':
-                confirmed = confirm_hang(prefix + [exe], args, pr.env, workdir, g, cfg.get('confirm_s', 90) * (10 if prefix else 1))
-                res['crashes'].append(dict(case=g, key='hang:' + section_of(info, g), stderr=et[-4000:], variant=variant, stall=True, confirmed=confirmed))
+                hkey = 'hang:' + section_of(info, g)
+                if any(c['key'] == hkey and c.get('confirmed') for c in res['crashes']):
+                    confirmed = True       # this hang has been reproduced once in this run already: do not pay for it again
+                else:
+                    confirmed = confirm_hang(prefix + [exe], args, pr.env, workdir, g, min(300, cfg.get('confirm_s', 90) * (3 if prefix else 1)))
+                res['crashes'].append(dict(case=g, key=hkey, stderr=et[-4000:], variant=variant, stall=True, confirmed=confirmed))
             else:
                 res['crashes'].append(dict(case=g, key='abort:' + crash_key(et, rc), stderr=et[-6000:], variant=variant))
             pr.resumes += 1
@@ -515,6 +519,10 @@ def run_check(pid, tier, seed, scale=100, jobs=NCPU, replay=None, keep=False):
     try:
         for v in variants:
             results.append((v, run_variant(pid, cfg, v, tier, seed, workdir + '', scale, jobs, only=only, verbose=bool(replay))))
+            if any(c.get('stall') and c.get('confirmed') for c in results[-1][1]['crashes']):
+                # a reproduced hang is a violation already; every further build variant would only wait for the same watchdog again
+                log('[%s] reproduced hang in variant %s: remaining build variants skipped' % (pid, v))
+                break
         verdict = judge(pid, cfg, tier, seed, scale, results, t0, workdir, replay is not None)
     finally:
         if not keep:
